@@ -156,22 +156,24 @@ Definition eq_fixed (a b : ms) : bool :=
   forallb (fun p => eq_pair_fixed (fst p) (snd p)) (combine (preorder a) (preorder b)).
 
 (* ------------------------------------------------------------------ Hash *)
-(* the words fed to the Hasher, abstracting how a key / byte array / integer feeds itself *)
+(* the words fed to the Hasher, abstracting only how a key feeds itself *)
 Inductive hword :=
-| HDisc (t : tag)          (* mem::discriminant(term).hash *)
-| HKey (k : key)
-| HBytes (h : bytes)
-| HNum (n : N)             (* lock time value, th.k(), th.n() *)
-| HLen (n : N).            (* length prefix written by `impl Hash for Vec` *)
+| HDisc (t : tag)          (* mem::discriminant(term).hash : write_isize(declaration index) *)
+| HKey (k : key)           (* the key's own (derived) Hash *)
+| HBytes (h : bytes)       (* a byte-array hash value: length prefix + bytes *)
+| HAbs (t : N)             (* absolute::LockTime: its own discriminant (height / time) + the u32 *)
+| HRel (t : N)             (* Sequence: the u32 *)
+| HUsize (n : N).          (* th.k(), th.n(), and the length prefix written by `impl Hash for Vec` *)
 
 Definition hash_node (x : node) : list hword :=
   HDisc (n_tag x) ::
   match n_tag x, n_pl x with
-  | TThresh, PK k => [HNum k; HNum (n_arity x)]                        (* th.k().hash; th.n().hash *)
+  | TThresh, PK k => [HUsize k; HUsize (n_arity x)]                    (* th.k().hash; th.n().hash *)
+  | TAfter, PNum t => [HAbs t]
+  | TOlder, PNum t => [HRel t]
   | _, PKey k => [HKey k]
   | _, PBytes h => [HBytes h]
-  | _, PNum t => [HNum t]
-  | _, PKeys k ks => HNum k :: HLen (nlen ks) :: map HKey ks           (* derived Hash of Threshold: k, Vec *)
+  | _, PKeys k ks => HUsize k :: HUsize (nlen ks) :: map HKey ks       (* derived Hash of Threshold: k, Vec *)
   | _, _ => []
   end.
 
